@@ -24,6 +24,9 @@
 #include <atomic>
 #include <algorithm>
 #include <dirent.h>
+#include <utime.h>
+#include <sys/stat.h>
+#include <cmath>
 
 using asl::String;
 using asl::ByteArray;
@@ -51,10 +54,11 @@ static ByteArray BA(const std::string& s)
 }
 
 enum { A_LANE, A_CLIENT, A_METHOD, A_CODE, A_FLAGS, A_RLEN, A_RSEED, A_RKIND, A_PLEN, A_PSEED, A_PKIND, A_RMODE, A_FRAG, A_FSEED,
-	   A_NQ, A_NRH, A_NPH, A_RANGE, A_RB, A_RE, A_V6, A_COUNT };
+	   A_NQ, A_NRH, A_NPH, A_RANGE, A_RB, A_RE, A_V6, A_IMS, A_COUNT };
 enum { S_PATH, S_METHOD, S_FIRST };
 enum { CL_REQUEST = 0, CL_STATIC = 1, CL_RAW = 2, CL_MINI = 3 };
-enum { RM_BYTES = 0, RM_STRING = 1, RM_STREAM = 2, RM_JSON = 3, RM_FILE = 4, RM_NONE = 5, RM_CHUNKED = 6 };
+enum { RM_BYTES = 0, RM_STRING = 1, RM_STREAM = 2, RM_JSON = 3, RM_FILE = 4, RM_NONE = 5, RM_CHUNKED = 6, RM_SERVE = 7 };
+// RM_SERVE: the handler calls HttpServer::serveFile() on a file under the web root (becomes RM_FILE with Spec::serve set)
 enum {
 	F_KEEP = 1,        // raw: leave the connection open for the next raw op of the lane
 	F_NOFOLLOW = 2,    // library client: setFollowRedirects(false) (3xx codes are then visible)
@@ -241,6 +245,31 @@ static std::string gen_jstring(ref::SplitMix& g)
 	return s;
 }
 
+// real numbers: besides short binary fractions, values that need all 17 significant digits to survive a text round trip
+static double gen_double(ref::SplitMix& g)
+{
+	for (;;) {
+		double x = 0;
+		switch ((int)g.below(9)) {
+		case 0: x = ((long long)g.below(1 << 21) - (1 << 20)) / 8.0; break;
+		case 1: x = (double)(1 + g.below(1000000)) / 3.0; break;
+		case 2: x = (double)g.below(1000) / 10.0 + 0.2; break;                            // 0.1 + 0.2 and friends
+		case 3: x = 1600000000.0 + (double)g.below(400000000) + (double)g.below(1000000) * 1e-6; break; // microsecond timestamps
+		case 4: {
+			uint64_t b = g.next();
+			memcpy(&x, &b, 8);
+			break;
+		}
+		case 5: x = 3.141592653589793 * std::pow(10.0, (double)((int)g.below(41) - 20)); break;
+		case 6: x = (1.0 + (double)g.below(1000000007) / 1000000007.0) * (g.below(2) ? 1e300 : 1e-300); break;
+		case 7: x = 1.0 / (double)(1 + g.below(100000)); break;
+		default: x = -(double)g.below(1000000007) / 977.0; break;
+		}
+		if (std::isfinite(x) && (x == 0 || (std::fabs(x) > 1e-305 && std::fabs(x) < 1e305)))
+			return x == 0 ? 0.0 : x;
+	}
+}
+
 static JV gen_jv(ref::SplitMix& g, int depth, int& budget)
 {
 	JV v;
@@ -252,7 +281,7 @@ static JV gen_jv(ref::SplitMix& g, int depth, int& budget)
 	switch (k) {
 	case 1: v.i = (long long)g.below(2); break;
 	case 2: v.i = (long long)(g.next() % 4294967295ULL) - 2147483647LL; break;
-	case 3: v.i = (long long)g.below(1 << 21) - (1 << 20); v.d = v.i / 8.0; break;
+	case 3: v.d = gen_double(g); break;
 	case 4: v.s = gen_jstring(g); break;
 	case 5: {
 		int n = (int)g.below(6);
@@ -296,7 +325,7 @@ static JV gen_json_doc(uint64_t seed, int size)
 		case 2: v.t = 2; v.i = 0; break;                       // 0
 		case 3: v.t = 2; v.i = -1 - (long long)g.below(2147483647); break;
 		case 4: v.t = 2; v.i = g.below(2) ? 2147483647LL : (long long)g.below(2147483647); break;
-		case 5: v.t = 3; v.i = (long long)g.below(1 << 21) - (1 << 20); v.d = v.i / 8.0; break;
+		case 5: v.t = 3; v.d = gen_double(g); break;
 		case 6: v.t = 3; v.i = 0; v.d = 0.0; break;             // 0.0
 		case 7: v.t = 4; break;                                // ""
 		case 8: v.t = 4; v.s = gen_jstring(g); if (v.s.empty()) v.s = "0"; break;
@@ -353,7 +382,7 @@ static void jv_text(const JV& j, std::string& out, ref::SplitMix& ws)
 	case 1: out += j.i ? "true" : "false"; break;
 	case 2: out += std::to_string(j.i); break;
 	case 3:
-		snprintf(b, sizeof b, "%.3f", j.d);
+		snprintf(b, sizeof b, "%.17g", j.d);
 		out += b;
 		break;
 	case 4:
@@ -410,7 +439,11 @@ static bool var_eq(const Var& v, const JV& j, std::string& why, const std::strin
 		if (t != Var::INT && t != Var::NUMBER && t != Var::FLOAT)
 			return bad("expected a number, type " + std::to_string((int)t));
 		double want = j.t == 2 ? (double)j.i : j.d;
-		return (double)v == want ? true : bad("number " + std::to_string((double)v) + " != " + std::to_string(want));
+		if ((double)v == want)
+			return true;
+		char nb[96];
+		snprintf(nb, sizeof nb, "number %.17g != %.17g", (double)v, want);
+		return bad(nb);
 	}
 	case 4: return (t == Var::STRING && S(v.toString()) == j.s) ? true : bad("expected string " + vf::show(j.s) + " got " + vf::show(S(v.toString())));
 	case 5: {
@@ -457,6 +490,22 @@ static void cleanup_tmp()
 				unlink((d + "/" + e->d_name).c_str());
 		closedir(dir);
 	}
+	std::string w = d + "/c10"; // web root part: c10/<id>/<file>
+	if (DIR* dir = opendir(w.c_str())) {
+		while (dirent* e = readdir(dir))
+			if (e->d_name[0] != '.') {
+				std::string sub = w + "/" + e->d_name;
+				if (DIR* d2 = opendir(sub.c_str())) {
+					while (dirent* e2 = readdir(d2))
+						if (e2->d_name[0] != '.')
+							unlink((sub + "/" + e2->d_name).c_str());
+					closedir(d2);
+				}
+				rmdir(sub.c_str());
+			}
+		closedir(dir);
+	}
+	rmdir(w.c_str());
 	rmdir(d.c_str());
 }
 static bool write_file(const std::string& path, const std::string& data)
@@ -506,6 +555,10 @@ struct Spec {
 	// what the client must see (derived)
 	int want_code = 200;
 	std::string want_body, want_content_range, want_mime, file_ext;
+	bool serve = false; // file served by HttpServer::serveFile() from the web root
+	int ims = 0;        // If-Modified-Since variant
+	long mtime = 0;
+	std::string ims_value, servedir;
 	// results
 	std::mutex m;
 	int handled = 0;
@@ -606,6 +659,7 @@ struct Srv : public HttpServer {
 	{
 		if (!bind(ip, 0))
 			return false;
+		setRoot(AS(tmpdir()));
 		port = _sockets[0].localAddress().port();
 		start(true);
 		return port > 0;
@@ -668,6 +722,8 @@ struct Srv : public HttpServer {
 		}
 		if (q.hasHeader("Content-Length") && S(q.header("Content-Length")) != std::to_string(body.size()))
 			e.push_back("handler: Content-Length header " + vf::show(S(q.header("Content-Length"))) + " but the body received has " + std::to_string(body.size()) + " bytes");
+		if (s.ims && S(q.header("if-modified-since")) != s.ims_value)
+			e.push_back("handler: If-Modified-Since " + vf::show(S(q.header("if-modified-since"))) + " != sent " + vf::show(s.ims_value));
 		if (s.range) {
 			std::string want = "bytes=" + std::to_string(s.rb) + "-" + (s.range == 1 ? std::to_string(s.re) : "");
 			if (S(q.header("Range")) != want)
@@ -690,14 +746,19 @@ struct Srv : public HttpServer {
 			}
 			r.setHeader("X-C10-Token", String(s.id));
 		};
-		bool late = (s.flags & F_LATECODE) && s.rmode != RM_STREAM && s.rmode != RM_CHUNKED;
+		bool late = (s.flags & F_LATECODE) && s.rmode != RM_STREAM && s.rmode != RM_CHUNKED && !s.serve; // serveFile() sets the status itself
 		if (!late)
 			head();
 		switch (s.rmode) {
 		case RM_BYTES: r.put(BA(s.respbody)); break;
 		case RM_STRING: r.put(AS(s.respbody)); break;
 		case RM_JSON: r.put(to_var(s.pj)); break;
-		case RM_FILE: r.put(asl::File(AS(s.respfile))); break;
+		case RM_FILE:
+			if (s.serve)
+				serveFile(q, r); // static file below the web root
+			else
+				r.put(asl::File(AS(s.respfile)));
+			break;
 		case RM_STREAM: {
 			r.setHeader("Content-Length", String((int)s.respbody.size()));
 			ref::SplitMix g(s.fseed ^ 0x51ed27);
@@ -957,14 +1018,18 @@ static SpecP make_spec(const vf::Op& o, int idx, int attempt)
 	s.lane = (int)U(A_LANE, 64);
 	s.client = (int)U(A_CLIENT, 4);
 	s.flags = (int)U(A_FLAGS, 65536);
-	s.rmode = (int)U(A_RMODE, 7);
+	s.rmode = (int)U(A_RMODE, 8);
+	if (s.rmode == RM_SERVE) {
+		s.serve = s.client != CL_MINI;
+		s.rmode = RM_FILE;
+	}
 	s.frag = (int)U(A_FRAG, 7);
 	s.fseed = (uint64_t)I(A_FSEED);
 	s.v6 = U(A_V6, 2) == 1 && (s.client == CL_MINI ? g_mini6 != 0 : g_srv[1] != 0);
 	s.code = 200 + (int)U(A_CODE, 400);
 	int flags = s.flags;
 	// method
-	int mi = (int)U(A_METHOD, 6);
+	int mi = s.serve ? 0 : (int)U(A_METHOD, 6); // serveFile() answers GET only
 	if (mi < 5)
 		s.method = METHODS[mi];
 	else {
@@ -988,7 +1053,25 @@ static SpecP make_spec(const vf::Op& o, int idx, int attempt)
 	// path and target
 	char idb[16];
 	snprintf(idb, sizeof idb, "%06d", s.id);
-	std::string tail = clean_path(o.str(S_PATH));
+	if (s.rmode == RM_FILE) {
+		// file extension: one of the server's built-in mime table, ".bin" (not in the table), or one that this process has
+		// never served before (every file response looks the extension up in a table shared by all handler threads)
+		static const char* const EXT[][2] = {{"css", "text/css"}, {"gif", "image/gif"}, {"htm", "text/html"}, {"html", "text/html"},
+			{"jpeg", "image/jpeg"}, {"jpg", "image/jpeg"}, {"js", "application/javascript"}, {"json", "application/json"},
+			{"png", "image/png"}, {"txt", "text/plain"}, {"mp4", "video/mp4"}, {"ogv", "video/ogg"}, {"webm", "video/webm"}, {"xml", "text/xml"}};
+		static std::atomic<unsigned> fresh{0};
+		unsigned ek = (unsigned)((s.fseed >> 12) % 32);
+		if (ek < 14) {
+			s.file_ext = EXT[ek][0];
+			s.want_mime = EXT[ek][1];
+		}
+		else {
+			static const char* const shape[] = {"x", "zz", "a", "m", "jsx", "htmlx", "cs", "pn"}; // sort before / between / after the table's keys
+			s.file_ext = ek < 16 ? std::string("bin") : shape[ek % 8] + std::to_string(fresh++);
+			s.want_mime = "text/plain"; // the server's default for extensions without an entry
+		}
+	}
+	std::string tail = s.serve ? "doc " + std::to_string(s.fseed % 97) + "." + s.file_ext : clean_path(o.str(S_PATH));
 	s.path = std::string("/c10/") + idb + "/" + tail;
 	for (size_t i = 11; i + 1 < s.path.size(); i++) // the join must not create ".." either
 		if (s.path[i] == '.' && s.path[i + 1] == '.')
@@ -1024,6 +1107,10 @@ static SpecP make_spec(const vf::Op& o, int idx, int attempt)
 		flags &= ~F_JSONREQ;
 		s.rmode = RM_BYTES;
 		s.range = 0;
+	}
+	if (s.serve) {
+		rlen = 0;
+		flags &= ~(F_JSONREQ | F_FILEREQ | F_UPLOAD | F_MULTIPART | F_STRBODY);
 	}
 	if (s.client == CL_STATIC && (s.method == "GET" || s.method == "DELETE") && !(flags & F_DOWNLOAD)) {
 		rlen = 0; // Http::get / Http::delet take no body
@@ -1089,23 +1176,13 @@ static SpecP make_spec(const vf::Op& o, int idx, int attempt)
 	s.want_code = s.code;
 	s.want_body = s.respbody;
 	if (s.rmode == RM_FILE) {
-		// file extension: one of the server's built-in mime table, ".bin" (not in the table), or one that this process has
-		// never served before (every file response looks the extension up in a table shared by all handler threads)
-		static const char* const EXT[][2] = {{"css", "text/css"}, {"gif", "image/gif"}, {"htm", "text/html"}, {"html", "text/html"},
-			{"jpeg", "image/jpeg"}, {"jpg", "image/jpeg"}, {"js", "application/javascript"}, {"json", "application/json"},
-			{"png", "image/png"}, {"txt", "text/plain"}, {"mp4", "video/mp4"}, {"ogv", "video/ogg"}, {"webm", "video/webm"}, {"xml", "text/xml"}};
-		static std::atomic<unsigned> fresh{0};
-		unsigned ek = (unsigned)((s.fseed >> 12) % 32);
-		if (ek < 14) {
-			s.file_ext = EXT[ek][0];
-			s.want_mime = EXT[ek][1];
-		}
-		else {
-			static const char* const shape[] = {"x", "zz", "a", "m", "jsx", "htmlx", "cs", "pn"}; // sort before / between / after the table's keys
-			s.file_ext = ek < 16 ? std::string("bin") : shape[ek % 8] + std::to_string(fresh++);
-			s.want_mime = "text/plain"; // the server's default for extensions without an entry
-		}
 		s.respfile = tmpdir() + "/f_" + idb + "." + s.file_ext;
+		if (s.serve) {
+			s.servedir = tmpdir() + "/c10/" + idb;
+			s.respfile = s.servedir + "/" + tail;
+			s.mtime = 1400000000L + (long)(U(A_PSEED, 200000000));
+			s.want_code = s.code = 200;
+		}
 		if (s.respbody.empty())
 			s.range = 0; // no satisfiable range of an empty file
 		if (s.range) {
@@ -1123,6 +1200,43 @@ static SpecP make_spec(const vf::Op& o, int idx, int attempt)
 			s.want_code = s.code = 200;
 		if (s.range)
 			s.code = 200;
+		s.ims = s.serve ? (int)U(A_IMS, 9) : 0;
+		if (s.ims) {
+			// serveFile(): "304 unless the file changed after the date", with 1 s of slack: 304 iff mtime <= date + 1.
+			// Observed contract of the unchanged library for a value it cannot parse as a date (the obsolete RFC 850 and
+			// asctime forms, other text): the header is ignored.
+			long off = (long)(s.fseed % 10000000);
+			long when = s.mtime;
+			bool not_modified = false;
+			switch (s.ims) {
+			case 1: when = s.mtime - 3 - off; break;
+			case 2: when = s.mtime - 2; break;
+			case 3: when = s.mtime - 1; not_modified = true; break;
+			case 4: when = s.mtime; not_modified = true; break;
+			case 5: when = s.mtime + 1 + off; not_modified = true; break;
+			default: when = (s.fseed & 1) ? s.mtime + 5000 + off : s.mtime - 5000 - off; break;
+			}
+			time_t tt = (time_t)when;
+			struct tm g;
+			gmtime_r(&tt, &g);
+			char b[80];
+			if (s.ims <= 5)
+				strftime(b, sizeof b, "%a, %d %b %Y %H:%M:%S GMT", &g); // IMF-fixdate
+			else if (s.ims == 6)
+				strftime(b, sizeof b, "%A, %d-%b-%y %H:%M:%S GMT", &g); // RFC 850
+			else if (s.ims == 7)
+				strftime(b, sizeof b, "%a %b %e %H:%M:%S %Y", &g); // asctime()
+			else {
+				static const char* junk[] = {"yesterday", "0", "not a date", "Sunday", "-1", "GMT", "now; then", "12:00:00"};
+				snprintf(b, sizeof b, "%s", junk[s.fseed % 8]);
+			}
+			s.ims_value = b;
+			if (not_modified) {
+				s.want_code = 304;
+				s.want_body.clear();
+				s.want_content_range.clear();
+			}
+		}
 	}
 	if ((flags & (F_DOWNLOAD | F_UPLOAD)))
 		; // only ok() is visible: any code
@@ -1184,7 +1298,7 @@ static void check_response(Spec& s, int code, const std::function<std::string(co
 		if (s.client != CL_MINI && s.rmode != RM_CHUNKED && cl != std::to_string(s.want_body.size()))
 			e.push_back("client: Content-Length header " + vf::show(cl) + " but the body produced has " + std::to_string(s.want_body.size()) + " bytes");
 	}
-	if (s.rmode == RM_FILE && header("Content-Type") != s.want_mime)
+	if (s.rmode == RM_FILE && s.want_code != 304 && header("Content-Type") != s.want_mime)
 		e.push_back("client: Content-Type of the file response (extension ." + s.file_ext + ") is " + vf::show(header("Content-Type")) + ", the server's table gives " + vf::show(s.want_mime));
 	if (s.range) {
 		if (header("Content-Range") != s.want_content_range)
@@ -1202,6 +1316,8 @@ static void lib_exchange(Spec& s, std::vector<std::string>& e)
 		hd["Range"] = AS("bytes=" + std::to_string(s.rb) + "-" + (s.range == 1 ? std::to_string(s.re) : ""));
 	if (s.rmode == RM_CHUNKED)
 		hd["Connection"] = "close";
+	if (s.ims)
+		hd["If-Modified-Since"] = AS(s.ims_value);
 	int f = s.flags;
 	if (f & F_DOWNLOAD) {
 		bool ok = Http::download(url, AS(s.dlfile), Http::Progress(), hd);
@@ -1256,6 +1372,8 @@ static void lib_exchange(Spec& s, std::vector<std::string>& e)
 				req.setHeader("range", hd["Range"]);
 			if (s.rmode == RM_CHUNKED)
 				req.setHeader("connection", "close");
+			if (s.ims)
+				req.setHeader("if-modified-since", AS(s.ims_value));
 		}
 		if (f & F_FILEREQ)
 			req.put(asl::File(AS(s.reqfile)));
@@ -1305,6 +1423,8 @@ static std::string raw_once(Spec& s, LaneState& L, bool reuse, bool& nothing, do
 		hs.push_back(std::make_pair(std::string((s.fseed & 16) ? "range" : "Range"), "bytes=" + std::to_string(s.rb) + "-" + (s.range == 1 ? std::to_string(s.re) : "")));
 	if (s.reqjson)
 		hs.push_back(std::make_pair(std::string("Content-Type"), std::string("application/json")));
+	if (s.ims)
+		hs.push_back(std::make_pair(std::string((s.fseed & 512) ? "if-modified-since" : "If-Modified-Since"), s.ims_value));
 	if (keep ? (http10 || (s.fseed & 32)) : !http10)
 		hs.push_back(std::make_pair(std::string((s.fseed & 64) ? "connection" : "Connection"), std::string(keep ? "keep-alive" : "close")));
 	size_t head_len = 0;
@@ -1415,8 +1535,18 @@ static Outcome do_exchange(const vf::Op& o, int idx, int attempt, LaneState& L, 
 	std::vector<std::string> e;
 	if (!s.reqfile.empty() && !write_file(s.reqfile, s.reqbody))
 		e.push_back("harness: cannot write " + s.reqfile);
+	if (s.serve) {
+		mkdir((tmpdir() + "/c10").c_str(), 0755);
+		mkdir(s.servedir.c_str(), 0755);
+	}
 	if (!s.respfile.empty() && !write_file(s.respfile, s.respbody))
 		e.push_back("harness: cannot write " + s.respfile);
+	if (s.serve) {
+		struct utimbuf ut;
+		ut.actime = ut.modtime = (time_t)s.mtime;
+		if (utime(s.respfile.c_str(), &ut) != 0)
+			e.push_back("harness: cannot set the modification time of " + s.respfile);
+	}
 	table().put(sp);
 	double t0 = ref::mono_s();
 	if (e.empty()) {
@@ -1444,6 +1574,8 @@ static Outcome do_exchange(const vf::Op& o, int idx, int attempt, LaneState& L, 
 	for (const std::string* fn : {&s.reqfile, &s.respfile, &s.dlfile})
 		if (!fn->empty())
 			unlink(fn->c_str());
+	if (s.serve)
+		rmdir(s.servedir.c_str());
 	if (!e.empty()) {
 		std::string d = "exchange #" + std::to_string(idx) + " (" + (s.client == CL_RAW ? "raw client" : s.client == CL_MINI ? "library client -> reference server" : "library client") +
 						", " + s.method + ", request body " + std::to_string(s.reqbody.size()) + ", response body " + std::to_string(s.want_body.size()) + "): ";
@@ -1488,6 +1620,24 @@ static void record_stats(const Spec& s, int lanes, const Outcome& out)
 		st.cls(std::string("refserver.response.") + ((s.flags & F_CHUNKED) ? "chunked" : "length"));
 	if (out.ka_retry)
 		st.cls("raw.keepalive_closed_by_server_resent");
+	std::function<bool(const JV&)> hard = [&](const JV& j) -> bool { // a real number that %.15g does not reproduce
+		if (j.t == 3) {
+			char b[64];
+			snprintf(b, sizeof b, "%.15g", j.d);
+			return strtod(b, 0) != j.d;
+		}
+		for (auto& x : j.a)
+			if (hard(x))
+				return true;
+		for (auto& x : j.o)
+			if (hard(x.second))
+				return true;
+		return false;
+	};
+	if (s.reqjson && hard(s.rj))
+		st.cls("json.request.with_17_digit_double");
+	if (s.rmode == RM_JSON && hard(s.pj))
+		st.cls("json.response.with_17_digit_double");
 	auto jtop = [](const JV& j) -> std::string {
 		if (j.t >= 5)
 			return j.a.empty() && j.o.empty() ? "empty_container" : "container";
@@ -1506,6 +1656,13 @@ static void record_stats(const Spec& s, int lanes, const Outcome& out)
 		st.cls(s.file_ext == "bin" ? "file.ext.bin" : s.want_mime != "text/plain" || s.file_ext == "txt" ? "file.ext.builtin" : "file.ext.never_seen_before");
 	if (s.rmode == RM_FILE)
 		st.cls(s.range == 1 ? (s.rb == s.re ? "file.range_single_byte" : "file.range_b-e") : s.range == 2 ? "file.range_b-" : "file.whole");
+	if (s.serve) {
+		static const char* K[] = {"none", "imf_before_mtime", "imf_mtime-2s", "imf_mtime-1s(304)", "imf_equal(304)", "imf_after(304)", "rfc850(ignored)", "asctime(ignored)", "garbage(ignored)"};
+		st.cls("file.serveFile");
+		st.cls(std::string("file.serveFile.if_modified_since.") + K[s.ims]);
+		if (s.ims && s.range)
+			st.cls("file.serveFile.if_modified_since_with_range");
+	}
 	if (s.rmode == RM_STREAM)
 		st.cls("response.streamed_write");
 	if (s.rmode == RM_CHUNKED) {
@@ -1812,8 +1969,8 @@ static rc::Gen<vf::Op> genEx(int profile, int maxlen, int lanes)
 		o.a[A_PSEED] = *vf::irange<int>(0, 1 << 30);
 		o.a[A_PKIND] = *vf::irange<int>(0, 4);
 		int r = *vf::irange<int>(0, 99);
-		o.a[A_RMODE] = profile == P_FILECONC ? RM_FILE : profile == P_FILES ? (r < 85 ? RM_FILE : RM_BYTES) : profile == P_JSON ? (r < 70 ? RM_JSON : RM_BYTES)
-					   : (r < 36 ? RM_BYTES : r < 45 ? RM_STRING : r < 58 ? RM_STREAM : r < 67 ? RM_CHUNKED : r < 75 ? RM_JSON : r < 91 ? RM_FILE : RM_NONE);
+		o.a[A_RMODE] = profile == P_FILECONC ? (r < 70 ? RM_FILE : RM_SERVE) : profile == P_FILES ? (r < 50 ? RM_FILE : r < 88 ? RM_SERVE : RM_BYTES) : profile == P_JSON ? (r < 70 ? RM_JSON : RM_BYTES)
+					   : (r < 36 ? RM_BYTES : r < 45 ? RM_STRING : r < 58 ? RM_STREAM : r < 67 ? RM_CHUNKED : r < 75 ? RM_JSON : r < 86 ? RM_FILE : r < 92 ? RM_SERVE : RM_NONE);
 		o.a[A_FRAG] = *vf::irange<int>(0, 6);
 		o.a[A_FSEED] = *vf::irange<int>(0, 1 << 30);
 		int rg = *vf::irange<int>(0, 99);
@@ -1832,6 +1989,7 @@ static rc::Gen<vf::Op> genEx(int profile, int maxlen, int lanes)
 		o.a[A_RB] = pos();
 		o.a[A_RE] = pct(15) ? o.a[A_RB] : pos();
 		o.a[A_V6] = pct(20) ? 1 : 0;
+		o.a[A_IMS] = pct(35) ? 0 : *vf::irange<int>(1, 8);
 		o.s[S_PATH] = pct(30) ? std::string() : genBytesFrom("/.%? #+&=;:@\\\"<>\x7f\xc3\xa9", 1, 255, 40);
 		int nq = pct(50) ? 0 : *vf::srange<int>(1, 6);
 		int nrh = pct(35) ? 0 : *vf::srange<int>(1, 12);
@@ -2106,6 +2264,47 @@ void vf_search(const vf::Args& a)
 			}
 		}
 		vf::stats().part("ranges.every_b_e_of_small_files_x3_clients", n, true);
+	}();
+
+	// (3b) conditional requests for files served by serveFile(): every If-Modified-Since variant x 4 clients x with/without Range
+	[&]() {
+		uint64_t n = 0;
+		std::vector<vf::Op> batch;
+		int k = 0;
+		for (int rep = 0; rep < (quick ? 2 : 8); rep++)
+			for (int ims = 0; ims <= 8; ims++)
+				for (int cl = 0; cl < 4; cl++)
+					for (int range = 0; range < 2; range++, k++) {
+						if (k % W != a.worker)
+							continue;
+						vf::Op o = ex_op();
+						o.a[A_LANE] = cl;
+						o.a[A_CLIENT] = cl == 0 ? CL_STATIC : cl == 3 ? CL_RAW : CL_REQUEST;
+						o.a[A_FLAGS] = cl == 1 ? F_DOWNLOAD : cl == 3 ? F_KEEP : (long long)(rng.below(2) * F_SETHDR);
+						o.a[A_PLEN] = 1 + (long long)rng.below(rep % 2 ? 40000 : 60);
+						o.a[A_PSEED] = (long long)rng.below(1 << 30);
+						o.a[A_PKIND] = (long long)rng.below(4);
+						o.a[A_RMODE] = RM_SERVE;
+						o.a[A_RANGE] = range;
+						o.a[A_RB] = (long long)rng.below(1 << 20);
+						o.a[A_RE] = (long long)rng.below(1 << 20);
+						o.a[A_IMS] = ims;
+						o.a[A_FSEED] = (long long)rng.below(1 << 30);
+						o.a[A_FRAG] = (long long)rng.below(7);
+						batch.push_back(o);
+						if (batch.size() >= 24) {
+							n += batch.size();
+							if (!run_ops("conditional", batch))
+								return;
+							batch.clear();
+						}
+					}
+		if (!batch.empty()) {
+			n += batch.size();
+			if (!run_ops("conditional", batch))
+				return;
+		}
+		vf::stats().part("conditional.if_modified_since_x_clients_x_range", n, false);
 	}();
 
 	// (4) generated exchanges
